@@ -72,14 +72,62 @@ def explain(ck: Check, s: sg.Schema, v: Any) -> Optional[List[int]]:
         return None
 
 
-def classify_known(ck: Check, s: sg.Schema, what: str) -> Optional[str]:
-    """Key of the known-finding class a failing case falls into (see known_findings.jsonl)."""
+def classify_known(ck: Check, s: sg.Schema, what: str, v: Any = None, rr: Any = None) -> Optional[str]:
+    """Key of the known finding that EXPLAINS this failing case (see known_findings.jsonl):
+    the schema must be in the finding's class and the observed difference must be exactly
+    the one the finding predicts; anything else stays a violation."""
     for kf in ck.known:
         cls = kf.get("class", {})
         pred = KNOWN_CLASSES.get(cls.get("pred", ""))
         if pred and kf.get("status") == "known" and what in cls.get("symptoms", [what]) and pred(s.top, cls):
-            return kf["key"]
+            expl = EXPLAINERS.get(cls.get("pred", ""))
+            if expl is None or (rr is not None and expl(s.top, v, rr)):
+                return kf["key"]
     return None
+
+
+def enum_default_explains(top: sg.T, v: Any, rr: Dict[str, Any]) -> bool:
+    """decoded tree == v except at enum leaves with nonzero first member d, where it is v|d."""
+    if "dec" not in rr:
+        # reading the or-ed proxy back through the IntEnum property raises ValueError when
+        # v|d is not a member
+        if rr.get("dec_exc") != "ValueError":
+            return False
+        hit = [False]
+
+        def scan(t: sg.T, a: Any) -> None:
+            k = t.kind
+            if k == "alias":
+                scan(t.t, a)
+            elif k == "arr":
+                for x in a:
+                    scan(t.t, x)
+            elif k == "msg":
+                for n, _, ft in t.fields:
+                    scan(ft, a[n] if n in a else a[str(n)])
+            elif k == "enum" and t.members[0][1] != 0:
+                if (a | t.members[0][1]) not in [m for _, m in t.members]:
+                    hit[0] = True
+        scan(top, v)
+        return hit[0]
+    found = [False]
+
+    def eq(t: sg.T, a: Any, b: Any) -> bool:
+        k = t.kind
+        if k == "alias":
+            return eq(t.t, a, b)
+        if k == "arr":
+            return len(a) == len(b) and all(eq(t.t, x, y) for x, y in zip(a, b))
+        if k == "msg":
+            return all(eq(ft, a[n] if n in a else a[str(n)], b[str(n)]) for n, _, ft in t.fields)
+        if k == "enum" and t.members[0][1] != 0 and a != b:
+            if b == (a | t.members[0][1]):
+                found[0] = True
+                return True
+            return False
+        return a == b and type(a) == type(b) or (a == b and k != "bool")
+
+    return eq(top, v, rr["dec"]) and found[0]
 
 
 def _walk(t: sg.T):
@@ -116,6 +164,8 @@ def has_enum_nonzero_default(top: sg.T, cls=None) -> bool:
     return False
 
 
+EXPLAINERS = {"enum_nonzero_default": enum_default_explains}
+
 KNOWN_CLASSES = {
     "ext_array_overshoot": has_bad_ext_array,
     "enum_any": has_enum_chunk_issue,
@@ -143,6 +193,13 @@ def run_py_wire(ck: Check, prop_file: str, want_decode: bool, n_quick=(120, 4), 
     if extra_cases:
         cases.extend(extra_cases)
     cases.extend(gen_cases(ck, ns, nv, params_for))
+    if guard is not None:
+        # separate small stream INSIDE the classes of the known findings
+        def inside(i, rng):
+            return sg.Params(enum_nonzero_first=1.0, max_fields=4)
+        saved = ck.seed
+        for (s_, v_, o_) in gen_cases(ck, 8 if ck.quick else 60, 2, lambda i, rng: inside(i, rng)):
+            cases.append((s_, v_, o_.replace("gen#", "inside-known-class#")))
 
     jobs = [pyside.make_job(ck, i, s, vals) for i, (s, vals, _) in enumerate(cases)]
     results = run_workers("run_py.py", jobs, chunk=max(5, len(jobs) // 32))
@@ -233,7 +290,7 @@ def run_py_wire(ck: Check, prop_file: str, want_decode: bool, n_quick=(120, 4), 
                     "dec": "decode(encode(v)) differs from v" if "dec" in rr else
                            f"decode(encode(v)) raised {rr.get('dec_exc')}",
                     "reenc": "re-encoding the decoded message does not reproduce the bytes"}[kind]
-            key = classify_known(ck, s, kind) if (guard is not None) else None
+            key = classify_known(ck, s, kind, v, rr) if (guard is not None) else None
             replay = {"schema": sg.schema_to_json(s), "value": sg.value_to_json(s.top, v),
                       "observed": {kk: rr.get(kk) for kk in ("enc", "enc_exc", "dec", "dec_exc", "reenc", "reenc_exc")},
                       "origin": origin, "stage": kind}
